@@ -414,6 +414,20 @@ func (s *lsServer) run(c *lsCase, tables map[int]*lsTable) bool {
 			msg = map[string]any{"jsonrpc": "2.0", "method": "textDocument/didClose", "params": map[string]any{
 				"textDocument": map[string]any{"uri": uri(op.U)}}}
 			latest[op.U] = 0
+		case "save":
+			msg = map[string]any{"jsonrpc": "2.0", "method": "textDocument/didSave", "params": map[string]any{
+				"textDocument": map[string]any{"uri": uri(op.U)}}}
+		case "cancel":
+			// cancels the latest definition request sent so far (or an id that was never used)
+			target := 777777
+			for k := i - 1; k >= 0; k-- {
+				if c.Ops[k].K == "def" {
+					target = c.Ops[k].ID
+					break
+				}
+			}
+			op.ID = target
+			msg = map[string]any{"jsonrpc": "2.0", "method": "$/cancelRequest", "params": map[string]any{"id": target}}
 		case "def":
 			op.ID = i + 1
 			cid := latest[op.U]
@@ -618,7 +632,7 @@ func lsRandom(args []string) error {
 				op.K, op.C = "change", 1+r.Intn(nc)
 				open[u] = true
 			case x < 9:
-				op.K = "change0"
+				op.K = []string{"change0", "save", "cancel"}[r.Intn(3)]
 			case x < 11:
 				op.K = "close"
 				open[u] = false
